@@ -79,8 +79,12 @@ def encode(a):
 
 
 def decode(x):
-    """dense array of a RunLengthArray (public API only)"""
-    return np.asarray(x.to_array())
+    """dense array of a RunLengthArray (public API only).  The array to_array() hands out is the caller's: a copy is
+    returned and the original overwritten, so that a later decoding cannot be a window onto an earlier one."""
+    arr = np.asarray(x.to_array())
+    out = arr.copy()
+    scribble(arr)
+    return out
 
 
 def check_canonical(x, exp_len, strict, what, **info):
